@@ -11,6 +11,7 @@ rsync -a --exclude .build --exclude replay --exclude .git /verif/ "$L/verif/"
 git -C "$L/repo" checkout -q --detach "$(git -C /repo rev-parse HEAD)"
 for item in "$@"; do
   sid="${item%%:*}"; patch="${item#*:}"; prop="${sid:0:3}"
+  case "$sid" in *@*) prop="${sid#*@}"; sid="${sid%@*}-by-$prop";; esac   # C11h@C15: run another property's check on this seed
   git -C "$L/repo" checkout -q -- . ; git -C "$L/repo" clean -fdq
   if ! git -C "$L/repo" apply "$patch" 2>/dev/null && ! patch -p1 -s -d "$L/repo" < "$patch" >/dev/null 2>&1; then echo "$sid APPLY-FAILED" > /tmp/lanes/results/$sid.txt; continue; fi
   t0=$(date +%s)
